@@ -824,6 +824,32 @@ def check_copy_ops(rep, prog, clsname, rule, floor_note=''):
                 for s in src.walk():
                     if s.k == 'MemberExpr' and s.decl_id == tv and s.c and ex.var_of(s.c[0]) == pid:
                         copied.add(tv)
+        # f.assign(v.f.begin(), v.f.end()) / f.assign(v.f) : the whole member is replaced by the argument's
+        for d in fn.walk():
+            if d.k == 'CXXMemberCallExpr' and d.callee and d.callee['name'] == 'assign' and d.object_arg() is not None and ex.var_of(d.object_arg()) in fields:
+                tv = ex.var_of(d.object_arg())
+                a_ = d.args()
+                srcs = []
+                for x in a_:
+                    xs = x.strip_all()
+                    if xs.k == 'CXXMemberCallExpr' and xs.callee and xs.callee['name'] in ('begin', 'cbegin', 'end', 'cend'):
+                        srcs.append((xs.callee['name'].lstrip('c'), xs.object_arg()))
+                    else:
+                        srcs.append(('whole', x))
+
+                def is_arg_field(o):
+                    o = o.strip_all()
+                    return o.k == 'MemberExpr' and o.decl_id == tv and o.c and ex.var_of(o.c[0]) == pid
+                if (len(srcs) == 2 and [k_ for (k_, _o) in srcs] == ['begin', 'end'] and all(is_arg_field(o) for (_k, o) in srcs)) or \
+                        (len(srcs) == 1 and srcs[0][0] == 'whole' and is_arg_field(srcs[0][1])):
+                    copied.add(tv)
+        # delegation to the sibling assignment operator: `return *this = v;` copies whatever that operator copies (it is judged on its own)
+        for d in fn.walk():
+            if d.k == 'CXXOperatorCallExpr' and d.op == '=' and len(d.c) == 3 and d.callee_id is not None and d.callee_id != fn.fref_id and \
+                    (d.callee or {}).get('rec') == clsname and ex.var_of(d.c[2]) == pid:
+                l_ = d.c[1].strip_all()
+                if l_.k == 'UnaryOperator' and l_.op == '*' and l_.c and l_.c[0].strip_all().k == 'CXXThisExpr':
+                    copied.update(fields)
         # swap-based moves: std::swap(f, v.f) / f.swap(v.f)
         for d in fn.walk():
             pair = None
@@ -869,6 +895,14 @@ def check_copy_ops(rep, prog, clsname, rule, floor_note=''):
                           key='%s|%s|%s' % (rule, fn.g, ','.join(missing)))
         else:
             rep.ok(rule, fn.body, fn, what, '%d member(s)' % len(fields))
+    if n == 0:
+        # no hand-written copy operation at all: the compiler-generated (implicit or `= default`) ones copy member-wise
+        some = [f for f in prog.functions if f.fref.get('rec') == clsname and f.body is not None]
+        if some:
+            rep.ok(rule, some[0].body, some[0], 'copy operations of %s copy every data member' % clsname.split('::')[-1],
+                   'no hand-written copy / move operation: the compiler-generated ones are member-wise')
+            rep.ok(rule, some[0].body, some[0], 'assignment of %s copies every data member' % clsname.split('::')[-1], 'compiler-generated')
+            n = 2
     return n
 
 
